@@ -4,6 +4,7 @@ mod cmd_sizes;
 mod gen_families;
 mod cmd_backend;
 mod cmd_det;
+mod cmd_robust;
 mod cmd_native;
 mod native;
 mod cmd_heapops;
@@ -125,6 +126,10 @@ fn main() {
         "subst" => cmd_subst::cmd_subst(num(2, 1), num(3, 0) as usize, &mut *out, args.get(5..).unwrap_or(&[])),
         "rt" => cmd_rt::cmd_rt(num(2, 1), num(3, 100) as usize, &mut *out),
         "sizes" => cmd_sizes::cmd_sizes(num(2, 1), num(3, 0) as usize, &mut *out, args.get(5..).unwrap_or(&[])),
+        "robust" => cmd_robust::cmd_robust(num(2, 1), num(3, 0) as usize, &mut *out, args.get(5..).unwrap_or(&[])),
+        "robust-lit" => cmd_robust::cmd_robust_lit(num(2, 1), num(3, 0) as usize, &mut *out),
+        "robust-deep" => { print!("{}", cmd_robust::deep_family(arg(2), num(3, 10) as usize).unwrap_or_default()); return; }
+        "robust-child" => { cmd_robust::cmd_child(arg(2)); return; }
         "fmt" => cmd_fmt::cmd_fmt(num(2, 1), num(3, 0) as usize, args.get(5..).unwrap_or(&[]), &mut *out),
         c => { eprintln!("unknown command {c}"); std::process::exit(2); }
     }
